@@ -25,6 +25,8 @@ type SpecEnv struct {
 	alloc string
 	depth int
 	entryHeap map[string]string // heap at entry of the loop whose invariant is evaluated
+	fvs     map[string]Val // captured variables of a closure under contract: name -> pointer to its cell
+	foreign bool           // the contract evaluated belongs to a callee, not to frame.fn
 }
 
 func (e *SpecEnv) child() *SpecEnv {
@@ -206,6 +208,24 @@ func (c *FnCtx) evalIdent(env *SpecEnv, name string) (Val, error) {
 				}
 			}
 			return Val{}, fmt.Errorf("no map iterator for loop %d", ord)
+		}
+	}
+	// captured variable of a closure: the name denotes the current content of its cell
+	if env.fvs != nil {
+		if p, ok := env.fvs[name]; ok {
+			if a := c.addrOfPointer(p); a != nil {
+				return c.loadAt(env.heap, a), nil
+			}
+		}
+	} else if env.frame != nil && !env.foreign && env.st != nil {
+		for _, fv := range env.frame.fn.FreeVars {
+			if fv.Name() == name {
+				if p, ok := env.st.env[fv]; ok {
+					if a := c.addrOfPointer(p); a != nil {
+						return c.loadAt(env.heap, a), nil
+					}
+				}
+			}
 		}
 	}
 	// local variable at the program point
@@ -551,6 +571,15 @@ func (c *FnCtx) evalCall(env *SpecEnv, e *Expr) (Val, error) {
 		}
 		sub := env.child()
 		sub.heap = env.entryHeap
+		return c.eval(sub, e.Args[0])
+	case "unlocked":
+		// unlocked(e): e evaluated after everything guarded by a mutex that is not held has been
+		// given an arbitrary value (interference by other threads between critical sections)
+		if len(e.Args) != 1 {
+			return Val{}, fmt.Errorf("unlocked(e) takes one argument")
+		}
+		sub := env.child()
+		sub.heap = c.interferenceHeap(env)
 		return c.eval(sub, e.Args[0])
 	case "sent":
 		// sent(ch): number of messages sent on channel ch so far (ghost)
